@@ -30,6 +30,7 @@ def op? : Sexp → Option Op
   | .list [.atom "del", c, n] => do pure (.del (← c.str?) (← n.str?))
   | .list [.atom "rebind", c, d, s] => do pure (.rebind (← c.str?) (← d.str?) (← s.str?))
   | .list [.atom "put", k, c, n] => do pure (.put (← k.nat?) (← c.str?) (← n.str?))
+  | .list [.atom "putx", k, c, n, o] => do pure (.putIn (← k.nat?) (← c.str?) (← n.str?) (← o.str?))
   | .list [.atom "drop", k] => do pure (.drop (← k.nat?))
   | .list [.atom "unloadctx", c] => do pure (.unloadCtx (← c.str?))
   | .list [.atom "unloadall"] => some .unloadAll
